@@ -306,11 +306,13 @@ Lemma theme_ids_doc :
   forallb (fun z => existsb (Z.eqb z) theme_ids) doc_theme_ids = true.
 Proof. vm_compute. reflexivity. Qed.
 
-Lemma doc_tables_ascii :
-  ascii_table doc_named_colors && ascii_table doc_shapes && ascii_table doc_arrowheads &&
-  ascii_table doc_fill_patterns && ascii_table doc_text_transforms && ascii_table doc_fonts &&
-  ascii_table doc_directions = true.
-Proof. vm_compute. reflexivity. Qed.
+Lemma asc_named : ascii_table doc_named_colors = true.  Proof. vm_compute. reflexivity. Qed.
+Lemma asc_shapes : ascii_table doc_shapes = true.  Proof. vm_compute. reflexivity. Qed.
+Lemma asc_arrow : ascii_table doc_arrowheads = true.  Proof. vm_compute. reflexivity. Qed.
+Lemma asc_fill : ascii_table doc_fill_patterns = true.  Proof. vm_compute. reflexivity. Qed.
+Lemma asc_tt : ascii_table doc_text_transforms = true.  Proof. vm_compute. reflexivity. Qed.
+Lemma asc_fonts : ascii_table doc_fonts = true.  Proof. vm_compute. reflexivity. Qed.
+Lemma asc_dirs : ascii_table doc_directions = true.  Proof. vm_compute. reflexivity. Qed.
 
 Lemma existsb_Zeqb_In z l : existsb (Z.eqb z) l = true <-> In z l.
 Proof.
@@ -337,8 +339,8 @@ Proof.
 Qed.
 
 Ltac ascii_of_doc :=
-  let H := fresh in pose proof doc_tables_ascii as H;
-  repeat (apply andb_prop in H; destruct H as [H ?]); assumption.
+  first [exact asc_named | exact asc_shapes | exact asc_arrow | exact asc_fill | exact asc_tt
+        | exact asc_fonts | exact asc_dirs].
 
 (* ================================================================ colours *)
 Lemma hex_color_spec v : hex_color v = true <-> HexColor v.
@@ -668,24 +670,22 @@ Proof. intro H. rewrite opacity_accept_iff. tauto. Qed.
 Lemma in_doc_theme_b z : existsb (Z.eqb z) doc_theme_ids = true <-> In z doc_theme_ids.
 Proof. apply existsb_Zeqb_In. Qed.
 
-Ltac int_family := apply int_in_b_spec; intro z; cbn beta; lia.
+Ltac int_family := apply int_in_b_spec; intro z; cbn beta; clear; lia.
 
 Theorem doc_b_spec (g : list N -> bool) c k v : doc_b g c k v = true <-> DocDomain g c k v.
 Proof.
-  assert (A := doc_tables_ascii).
-  repeat (apply andb_prop in A; destruct A as [A ?]).
   destruct k; cbn [doc_b DocDomain].
   - apply doc_opacity_rounded_b_spec.
   - apply doc_color_b_spec.
   - apply doc_color_b_spec.
-  - apply spells_one_of_b_spec; assumption.
+  - apply spells_one_of_b_spec; ascii_of_doc.
   - int_family.
   - int_family.
   - int_family.
   - apply mem_word_In.
   - apply mem_word_In.
   - apply mem_word_In.
-  - apply spells_one_of_b_spec; assumption.
+  - apply spells_one_of_b_spec; ascii_of_doc.
   - int_family.
   - apply doc_color_b_spec.
   - apply mem_word_In.
@@ -694,7 +694,7 @@ Proof.
   - apply mem_word_In.
   - apply mem_word_In.
   - apply mem_word_In.
-  - apply spells_one_of_b_spec; assumption.
+  - apply spells_one_of_b_spec; ascii_of_doc.
   - int_family.
   - int_family.
   - int_family.
@@ -704,8 +704,8 @@ Proof.
   - int_family.
   - int_family.
   - int_family.
-  - apply spells_one_of_b_spec; assumption.
-  - destruct c; rewrite ?orb_true_iff, !spells_one_of_b_spec by assumption; tauto.
+  - apply spells_one_of_b_spec; ascii_of_doc.
+  - destruct c; rewrite ?orb_true_iff, !spells_one_of_b_spec by ascii_of_doc; tauto.
   - apply int_in_b_spec. intro z. apply in_doc_theme_b.
   - apply int_in_b_spec. intro z. apply in_doc_theme_b.
   - apply int_in_b_spec. intro z. tauto.
@@ -717,7 +717,7 @@ Qed.
 Definition clean (k : kw) : bool :=
   match k with KWidth | KHeight | KOpacity | KShape => false | _ => true end.
 
-Ltac int_accept := rewrite atoi_in_is_int_in_b; apply int_in_b_spec; intro z; cbn beta; lia.
+Ltac int_accept := rewrite atoi_in_is_int_in_b; apply int_in_b_spec; intro z; cbn beta; clear; lia.
 
 Lemma theme_accept v :
   atoi_in v (fun z => existsb (Z.eqb z) theme_ids) = true <-> IntIn v (fun z => In z doc_theme_ids).
@@ -728,19 +728,17 @@ Qed.
 Theorem accept_iff_in_domain (g : list N -> bool) c k v :
   clean k = true -> (accepts g c k v = true <-> DocDomain g c k v).
 Proof.
-  assert (A := doc_tables_ascii).
-  repeat (apply andb_prop in A; destruct A as [A ?]).
   destruct k; cbn [clean]; try discriminate; intros _; cbn [accepts DocDomain].
   - apply valid_color_spec.
   - apply valid_color_spec.
-  - apply table_spec; [exact fill_patterns_doc | assumption].
+  - apply table_spec; [exact fill_patterns_doc | ascii_of_doc].
   - int_accept.
   - int_accept.
   - int_accept.
   - apply is_bool_spec.
   - apply is_bool_spec.
   - apply is_bool_spec.
-  - apply table_spec; [exact fonts_doc | assumption].
+  - apply table_spec; [exact fonts_doc | ascii_of_doc].
   - int_accept.
   - apply valid_color_spec.
   - apply is_bool_spec.
@@ -749,7 +747,7 @@ Proof.
   - apply is_bool_spec.
   - apply is_bool_spec.
   - apply is_bool_spec.
-  - apply table_spec; [exact text_transforms_doc | assumption].
+  - apply table_spec; [exact text_transforms_doc | ascii_of_doc].
   - int_accept.
   - int_accept.
   - int_accept.
@@ -757,7 +755,7 @@ Proof.
   - int_accept.
   - int_accept.
   - int_accept.
-  - apply table_spec; [exact directions_doc | assumption].
+  - apply table_spec; [exact directions_doc | ascii_of_doc].
   - apply theme_accept.
   - apply theme_accept.
   - rewrite atoi_in_is_int_in_b. apply int_in_b_spec. intro z. tauto.
@@ -779,7 +777,7 @@ Definition str_minus5 : list N := [45; 53].
 
 Lemma IntLit_minus5 : IntLit str_minus5 (-5)%Z.
 Proof.
-  change (-5)%Z with (- Z.of_N (pos_val [53]))%Z. apply IL_minus. split; [discriminate|].
+  change (-5)%Z with (- Z.of_N (pos_val [53%N]))%Z. apply IL_minus. split; [discriminate|].
   constructor; [reflexivity | constructor].
 Qed.
 
@@ -862,9 +860,10 @@ Definition lower_char (r : N) : Prop := r < 128 /\ lowerA r = r.
 Definition lower_table (tbl : list (list N)) : bool :=
   forallb (forallb (fun r => (r <? 128) && (lowerA r =? r))) tbl.
 
-Lemma lower_tables :
-  lower_table shapes && lower_table arrowheads && lower_table fonts && lower_table directions = true.
-Proof. vm_compute. reflexivity. Qed.
+Lemma low_shapes : lower_table shapes = true.  Proof. vm_compute. reflexivity. Qed.
+Lemma low_arrow : lower_table arrowheads = true.  Proof. vm_compute. reflexivity. Qed.
+Lemma low_fonts : lower_table fonts = true.  Proof. vm_compute. reflexivity. Qed.
+Lemma low_dirs : lower_table directions = true.  Proof. vm_compute. reflexivity. Qed.
 
 Lemma lower_table_word tbl w : lower_table tbl = true -> In w tbl -> Forall lower_char w.
 Proof.
@@ -905,26 +904,25 @@ Theorem accepted_value_unchanged (g : list N -> bool) c k v :
   stored c k v = v \/ (keyword_valued k = true /\ go_lower (stored c k v) = go_lower v).
 Proof.
   intros Acc Hex.
-  pose proof lower_tables as T. repeat (apply andb_prop in T; destruct T as [T ?]).
   destruct k; try (left; reflexivity).
   - (* font *) right. split; [reflexivity|]. cbn [stored accepts] in *. apply mem_word_In in Acc.
-    apply go_lower_encode. apply lower_chars_plain. eapply lower_table_word; eauto.
+    apply go_lower_encode. apply lower_chars_plain. apply (lower_table_word fonts); [exact low_fonts | exact Acc].
   - (* direction *) right. split; [reflexivity|]. cbn [stored accepts] in *. apply mem_word_In in Acc.
-    apply go_lower_encode. apply lower_chars_plain. eapply lower_table_word; eauto.
+    apply go_lower_encode. apply lower_chars_plain. apply (lower_table_word directions); [exact low_dirs | exact Acc].
   - (* shape *)
     assert (Sh : is_shape v = true -> go_lower v <> [] -> Forall (fun r => r = long_s \/ lower_char r) (go_lower v)).
     { unfold is_shape. destruct (go_lower v) as [|r l] eqn:E; [congruence|]. intros M _. apply mem_word_In in M.
-      eapply fold_s_chars; [reflexivity | eapply lower_table_word; eauto]. }
+      eapply fold_s_chars; [reflexivity | apply (lower_table_word shapes); [exact low_shapes | exact M]]. }
     assert (Ah : is_arrowhead v = true -> Forall (fun r => r = long_s \/ lower_char r) (go_lower v)).
-    { unfold is_arrowhead. intro M. apply mem_word_In in M. apply lower_chars_plain. eapply lower_table_word; eauto. }
+    { unfold is_arrowhead. intro M. apply mem_word_In in M. apply lower_chars_plain. apply (lower_table_word arrowheads); [exact low_arrow | exact M]. }
     destruct (go_lower v) as [|r l] eqn:E.
     + apply go_lower_nil in E. subst v. destruct c; [exfalso; apply Hex; auto | left; reflexivity ..].
     + right. split; [reflexivity|].
-      assert (St : stored c KShape v = encode_lower (go_lower v)).
+      assert (St : stored c KShape v = encode_lower (r :: l)).
       { cbn [stored]. rewrite E. destruct c; reflexivity. }
       rewrite St. apply go_lower_encode.
-      assert (Ne : go_lower v <> []) by (rewrite E; discriminate).
-      rewrite <- E in *. cbn [accepts] in Acc. destruct c.
+      assert (Ne : r :: l <> []) by discriminate.
+      cbn [accepts] in Acc. destruct c.
       * apply Sh; assumption.
       * apply orb_prop in Acc as [Acc|Acc]; [apply Sh | apply Ah]; assumption.
       * apply orb_prop in Acc as [Acc|Acc]; [apply Sh | apply Ah]; assumption.
@@ -937,4 +935,194 @@ Lemma unchanged_clause_sound k v s :
   (s = v \/ (keyword_valued k = true /\ go_lower s = go_lower v)).
 Proof.
   rewrite orb_true_iff, andb_true_iff, !bytes_eqb_eq. split; intros [H|[H1 H2]]; auto.
+Qed.
+
+(* ================================================================ plain decimal literals through ParseFloat *)
+Definition dd (c : N) : Prop := is_digit c = true \/ c = 46.
+
+Lemma dd_facts c : dd c ->
+  (c =? c_plus) = false /\ (c =? c_minus) = false /\ (c =? c_us) = false /\ lowerA c = c /\ c < 65.
+Proof. unfold dd, is_digit, c_plus, c_minus, c_us, lowerA. intros [H | ->]; [|cbn; lia]. repeat split; try lia.
+  destruct ((65 <=? c) && (c <=? 90)) eqn:E; lia. all: lia. Qed.
+
+Lemma pos_val_app a b : pos_val (a ++ b) = pos_val a * 10 ^ N.of_nat (length b) + pos_val b.
+Proof.
+  induction a as [|d a IH]; [cbn [app pos_val]; lia|].
+  cbn [app pos_val]. rewrite IH, app_length, Nat2N.inj_add, N.pow_add_r. ring.
+Qed.
+
+Lemma scan_mant_digits ds : Forall (fun d => is_digit d = true) ds ->
+  forall r m fr sawdot sawdig,
+  scan_mant false (ds ++ r) m fr sawdot sawdig =
+  scan_mant false r (m * 10 ^ N.of_nat (length ds) + pos_val ds)
+            (if sawdot then fr + N.of_nat (length ds) else fr) sawdot (sawdig || nonempty ds).
+Proof.
+  induction 1 as [|d ds Hd _ IH]; intros r m fr sawdot sawdig.
+  - cbn [app length pos_val nonempty]. change (N.of_nat 0) with 0. rewrite N.pow_0_r, orb_false_r.
+    replace (m * 1 + 0) with m by lia. destruct sawdot; [replace (fr + 0) with fr by lia|]; reflexivity.
+  - cbn [app scan_mant].
+    assert (E1 : (d =? c_us) = false) by (unfold is_digit, c_us in *; lia).
+    assert (E2 : (d =? c_dot) = false) by (unfold is_digit, c_dot in *; lia).
+    rewrite E1, E2, Hd. rewrite IH. cbn [length pos_val nonempty].
+    rewrite Nat2N.inj_succ, N.pow_succ_r'.
+    f_equal; [ring | destruct sawdot; lia | destruct sawdig; reflexivity].
+Qed.
+
+Lemma uok_no_underscore hex s : ~ In c_us s -> forall saw, saw <> 2 -> uok_loop hex s saw = true.
+Proof.
+  induction s as [|c r IH]; intros Hn saw Hs; cbn [uok_loop].
+  - destruct (saw =? 2) eqn:E; [apply N.eqb_eq in E; contradiction | reflexivity].
+  - assert (Hc : (c =? c_us) = false) by (apply N.eqb_neq; intro; subst; apply Hn; left; reflexivity).
+    assert (Hr : ~ In c_us r) by (intro; apply Hn; right; assumption).
+    destruct (is_digit c || hex && is_hexletter c); [apply IH; [exact Hr | discriminate]|].
+    rewrite Hc. assert ((saw =? 2) = false) as -> by (apply N.eqb_neq; exact Hs).
+    apply IH; [exact Hr | discriminate].
+Qed.
+
+Lemma underscore_ok_no_underscore s : ~ In c_us s -> underscore_ok s = true.
+Proof.
+  intro Hn. unfold underscore_ok.
+  assert (Ht : ~ In c_us (snd (split_sign s))).
+  { destruct s as [|c r]; [exact Hn|]. cbn [split_sign].
+    destruct (c =? c_plus); [|destruct (c =? c_minus)]; cbn [snd]; try exact Hn;
+      intro; apply Hn; right; assumption. }
+  destruct (snd (split_sign s)) as [|z [|x r]]; try (apply uok_no_underscore; [exact Ht | discriminate]).
+  destruct ((z =? c_zero) && ((lowerA x =? 98) || (lowerA x =? 111) || (lowerA x =? 120))).
+  - apply uok_no_underscore; [|discriminate]. intro; apply Ht; right; right; assumption.
+  - apply uok_no_underscore; [exact Ht | discriminate].
+Qed.
+
+Lemma bytes_eqb_head c r d w : c <> d -> bytes_eqb (c :: r) (d :: w) = false.
+Proof. intro H. unfold bytes_eqb. cbn [list_eqb]. apply N.eqb_neq in H. rewrite H. reflexivity. Qed.
+
+Lemma special_dd_head c r : dd c -> special (c :: r) = None /\ special (43 :: c :: r) = None /\ special (45 :: c :: r) = None.
+Proof.
+  intro H. destruct (dd_facts c H) as (Hp & Hm & _ & Hl & Hlt).
+  assert (N1 : c <> 105) by lia. assert (N2 : c <> 110) by lia.
+  unfold special. rewrite Hp, Hm. cbn [orb map].
+  change (43 =? c_plus) with true. change (45 =? c_plus) with false. change (45 =? c_minus) with true.
+  cbn [orb]. rewrite Hl. unfold str_inf, str_infinity, str_nan.
+  rewrite !(bytes_eqb_head c _ 105) by exact N1. rewrite (bytes_eqb_head c _ 110) by exact N2.
+  cbn [orb]. auto.
+Qed.
+
+Lemma hex_prefix_dd t : Forall dd t -> hex_prefix t = None.
+Proof.
+  intro F. unfold hex_prefix. destruct t as [|z [|x [|y r]]]; try reflexivity.
+  inversion F as [|? ? _ F']; subst. inversion F' as [|? ? Hx _]; subst.
+  destruct (dd_facts x Hx) as (_ & _ & _ & Hl & Hlt). rewrite Hl.
+  assert ((x =? 120) = false) as -> by lia. rewrite andb_false_r. reflexivity.
+Qed.
+
+Lemma read_float_nonempty s : s <> [] ->
+  read_float s =
+  let (neg, t) := split_sign s in
+  let hex := match hex_prefix t with Some _ => true | None => false end in
+  let u := match hex_prefix t with Some r => r | None => t end in
+  match scan_mant hex u 0 0 false false with
+  | (m, fr, sawdig, rest) =>
+      if negb sawdig then None
+      else
+        match rest with
+        | [] => if hex then None
+                else if underscore_ok s then Some (FNum false neg m (- Z.of_N fr)%Z) else None
+        | c :: r =>
+            if lowerA c =? (if hex then 112 else 101) then
+              match read_exp r with
+              | Some e => if underscore_ok s
+                          then Some (FNum hex neg m (e - Z.of_N (if hex then 4 * fr else fr))%Z) else None
+              | None => None
+              end
+            else None
+        end
+  end.
+Proof. destruct s; [congruence | reflexivity]. Qed.
+
+Lemma Forall_digit_dd l : Forall (fun d => is_digit d = true) l -> Forall dd l.
+Proof. intro H. eapply Forall_impl; [|exact H]. intros a Ha. left. exact Ha. Qed.
+
+Lemma digits_no_us l : Forall dd l -> ~ In c_us l.
+Proof.
+  intros F Hin. rewrite Forall_forall in F. specialize (F _ Hin).
+  destruct (dd_facts _ F) as (_ & _ & H & _). discriminate H.
+Qed.
+
+Theorem parse_float_decimal v neg ip fp :
+  DecimalLit v neg ip fp ->
+  parse_float v = Some (FNum false neg (pos_val (ip ++ fp)) (- Z.of_nat (length fp))%Z).
+Proof.
+  intros (Fi & Ff & Hne & sg & Hsg & Hv).
+  (* the unsigned part t and its shape *)
+  assert (Ht : exists t, v = sg ++ t /\ Forall dd t /\ t <> [] /\
+               scan_mant false t 0 0 false false = (pos_val (ip ++ fp), N.of_nat (length fp), true, [])).
+  { destruct Hv as [-> | [-> ->]].
+    - exists (ip ++ 46 :: fp). split; [reflexivity|]. split; [|split].
+      + apply Forall_app. split; [apply Forall_digit_dd; exact Fi|].
+        constructor; [right; reflexivity | apply Forall_digit_dd; exact Ff].
+      + destruct ip; discriminate.
+      + rewrite (scan_mant_digits ip Fi). cbn [scan_mant]. change (46 =? c_us) with false.
+        change (46 =? c_dot) with true. cbv iota.
+        rewrite <- (app_nil_r fp) at 1. rewrite (scan_mant_digits fp Ff). cbn [scan_mant].
+        rewrite pos_val_app.
+        assert (X3 : false || nonempty ip || nonempty fp = true).
+        { destruct Hne as [H|H]; [destruct ip; [congruence | reflexivity] |
+                                  destruct fp; [congruence | destruct ip; reflexivity]]. }
+        rewrite X3.
+        replace ((0 * 10 ^ N.of_nat (length ip) + pos_val ip) * 10 ^ N.of_nat (length fp) + pos_val fp)
+          with (pos_val ip * 10 ^ N.of_nat (length fp) + pos_val fp) by lia.
+        replace (0 + N.of_nat (length fp)) with (N.of_nat (length fp)) by lia. reflexivity.
+    - exists ip. split; [reflexivity|]. split; [apply Forall_digit_dd; exact Fi|]. split.
+      + destruct Hne as [H|H]; congruence.
+      + rewrite <- (app_nil_r ip) at 1. rewrite (scan_mant_digits ip Fi). cbn [scan_mant length].
+        rewrite app_nil_r.
+        assert (X3 : false || nonempty ip = true) by (destruct ip; [destruct Hne; congruence | reflexivity]).
+        rewrite X3. replace (0 * 10 ^ N.of_nat (length ip) + pos_val ip) with (pos_val ip) by lia.
+        reflexivity. }
+  destruct Ht as (t & -> & Ft & Hnt & Sc).
+  destruct t as [|c r]; [congruence|]. inversion Ft as [|? ? Hc Fr]; subst.
+  destruct (special_dd_head c r Hc) as (S0 & S1 & S2).
+  destruct (dd_facts c Hc) as (Hp & Hm & _).
+  assert (Us : ~ In c_us (c :: r)) by (apply digits_no_us; exact Ft).
+  assert (Sp : special (sg ++ c :: r) = None /\ split_sign (sg ++ c :: r) = (neg, c :: r) /\
+               ~ In c_us (sg ++ c :: r)).
+  { destruct Hsg as [[-> ->] | [[-> ->] | [-> ->]]]; cbn [app split_sign].
+    - rewrite Hp, Hm. auto.
+    - change (43 =? c_plus) with true. split; [exact S1 | split; [reflexivity|]].
+      intros [E|E]; [discriminate E | exact (Us E)].
+    - change (45 =? c_plus) with false. change (45 =? c_minus) with true.
+      split; [exact S2 | split; [reflexivity|]]. intros [E|E]; [discriminate E | exact (Us E)]. }
+  destruct Sp as (Sp & Ss & Un).
+  unfold parse_float. rewrite Sp. rewrite read_float_nonempty by (destruct sg; discriminate).
+  rewrite Ss. rewrite (hex_prefix_dd (c :: r) Ft). cbv zeta. rewrite Sc. cbn [negb].
+  rewrite (underscore_ok_no_underscore _ Un). rewrite nat_N_Z. reflexivity.
+Qed.
+
+Lemma decimal_value_eq neg ip fp :
+  (fnum_Q false neg (pos_val (ip ++ fp)) (- Z.of_nat (length fp)) == decimal_Q neg ip fp)%Q.
+Proof.
+  unfold fnum_Q, decimal_Q. set (M := Z.of_N (pos_val (ip ++ fp))).
+  assert (E : (fnum_abs false (pos_val (ip ++ fp)) (- Z.of_nat (length fp)) ==
+               Qmake M (Z.to_pos (10 ^ Z.of_nat (length fp))))%Q).
+  { rewrite fnum_abs_unfold. fold M. destruct (length fp) as [|n].
+    - cbn. unfold Qeq. cbn. lia.
+    - assert ((0 <=? - Z.of_nat (S n))%Z = false) as -> by lia.
+      rewrite Z.opp_involutive. reflexivity. }
+  destruct neg; [rewrite E; reflexivity | exact E].
+Qed.
+
+Lemma RoundsIntoUnit_compat x y : (x == y)%Q -> RoundsIntoUnit x -> RoundsIntoUnit y.
+Proof. unfold RoundsIntoUnit. intros E [H1 H2]. rewrite <- E. auto. Qed.
+
+(* opacity on plain decimal literals, stated without the parser *)
+Theorem opacity_plain_decimal (g : list N -> bool) c v neg ip fp :
+  DecimalLit v neg ip fp ->
+  (accepts g c KOpacity v = true <-> RoundsIntoUnit (decimal_Q neg ip fp)).
+Proof.
+  intro D. pose proof (parse_float_decimal v neg ip fp D) as P.
+  rewrite opacity_accept_iff. split.
+  - intros [H | (x & (hex & ng & m & e & E & ->) & R)]; [congruence|].
+    rewrite P in E. inversion E; subst. eapply RoundsIntoUnit_compat; [apply decimal_value_eq | exact R].
+  - intro R. right. exists (fnum_Q false neg (pos_val (ip ++ fp)) (- Z.of_nat (length fp))).
+    split; [exists false, neg, (pos_val (ip ++ fp)), (- Z.of_nat (length fp))%Z; split; [exact P | reflexivity]|].
+    eapply RoundsIntoUnit_compat; [symmetry; apply decimal_value_eq | exact R].
 Qed.
